@@ -3001,7 +3001,7 @@ pub async fn exec_c09(script: Value) -> ExecResult {
                     vensure!(v.2 == e.typ && v.3 == e.desc, &format!("{}.type_desc", id), "{}: key {} type/desc {:?}/{:?}, published {:?}/{:?}", when, ks, v.2, v.3, e.typ, e.desc);
                 }
             }
-            let uri = format!("/nacos/v1/cs/configs?dataId={}&group={}&tenant={}", urlencode(DATA_IDS[d as usize % 5]), urlencode(GROUPS[g as usize % 2]), urlencode(TENANTS[t as usize % 3]));
+            let uri = format!("/nacos/v1/cs/configs?dataId={}&group={}&tenant={}", urlencode(DATA_IDS[d as usize % DATA_IDS.len()]), urlencode(GROUPS[g as usize % 2]), urlencode(TENANTS[t as usize % 3]));
             let resp = call(&app, "GET", &uri, &[], None).await;
             match want {
                 None => vensure!(resp.status == 404, &format!("{}.http_removed_still_served", id), "{}: HTTP GET {} answers {} for a removed key", when, uri, resp.status),
@@ -3018,8 +3018,8 @@ pub async fn exec_c09(script: Value) -> ExecResult {
             let df = rng.below(3);
             let group_exact = if gf == 1 { Some(GROUPS[rng.below(2) as usize].to_string()) } else { None };
             let group_like = if gf == 2 { Some(rng.pick(&["g", "GROUP", "2", "DEFAULT_GROUP"]).to_string()) } else { None };
-            let data_exact = if df == 1 { Some(DATA_IDS[rng.below(5) as usize].to_string()) } else { None };
-            let data_like = if df == 2 { Some(rng.pick(&["app", ".yaml", "a", "conf", "x", "yaml.b"]).to_string()) } else { None };
+            let data_exact = if df == 1 { Some(DATA_IDS[rng.below(6) as usize].to_string()) } else { None };
+            let data_like = if df == 2 { Some(rng.pick(&["app", ".yaml", "a", "conf", "x", "yaml.b", "app.yaml", "p.y"]).to_string()) } else { None };
             let mut want_keys: Vec<(String, String, String)> = vec![];
             for (k, _) in &m.cfg {
                 let parts: Vec<&str> = k.split('|').collect();
@@ -3158,7 +3158,7 @@ impl Check for C09 {
         for _ in 0..n {
             let t = rng.below(3) as u8;
             let g = rng.below(2) as u8;
-            let d = rng.below(5) as u8;
+            let d = rng.below(6) as u8;
             if rng.chance(0.8) {
                 steps.push(WStep::CfgSet { node: 1, t, g, d, size: *rng.pick(&[0u32, 1, 10, 40, 200, 5000, 200_000]), same: rng.chance(0.2), typ: rng.below(4) as u8, desc: rng.below(3) as u8 });
             } else {
